@@ -459,7 +459,7 @@ func main() {
 
 	// ---- end-to-end stream (real binary)
 	if *fwdBin != "" {
-		configs := 6
+		configs := 7
 		if *tier == "thorough" {
 			configs = 40
 		}
